@@ -358,7 +358,7 @@ def _(c):
 def _(c):
     c.self_type("Pyramid", **PYRAMID_FIELDS)
     c.args(callback="callback", total="int", cli_progress="bool", parallel="int")
-    c.requires("parallel >= 2")
+    c.requires("parallel >= 1")
     c.local(workers="emptylist => proclist", ready_queue="opaque:queue => queue[args2]", done_event="opaque:event => event")
     c.loop(0, summarise="stateless")
     c.loop(1, summarise="stateless")
@@ -453,7 +453,7 @@ def _(c):
 @contract("toasty.transform._transform_parallel")
 def _(c):
     c.args(pio_in="pio", pio_out="pio", depth="int", make_buf="factory", do_one="callback", cli_progress="bool", parallel="int")
-    c.requires("parallel >= 2 and depth >= 0")
+    c.requires("parallel >= 1 and depth >= 0")
     c.local(workers="emptylist => proclist", queue="opaque:queue => queue[Pos]", done_event="opaque:event => event")
     c.loop(0, summarise="stateless")
     c.loop(1, summarise="stateless")
